@@ -50,6 +50,8 @@ pub struct Inner {
     pub calllog: Option<Vec<(&'static str, u64, u64)>>,
     /// close() reports an error (it still counts as the one close the contract allows)
     pub fail_close: bool,
+    /// sync_data takes this long (a real device needs time: the window in which a commit is half published)
+    pub sync_delay_us: u64,
 }
 
 pub struct Store {
@@ -76,6 +78,7 @@ impl Store {
                 contract: Contract::default(),
                 calllog: None,
                 fail_close: false,
+                sync_delay_us: 0,
             }),
         })
     }
@@ -135,6 +138,10 @@ impl Store {
     /// or the open failed)
     pub fn mark_done(&self) {
         self.inner.lock().unwrap().note("bdone", 0, 0);
+    }
+
+    pub fn set_sync_delay(&self, micros: u64) {
+        self.inner.lock().unwrap().sync_delay_us = micros;
     }
 
     pub fn set_fail_close(&self, on: bool) {
@@ -242,6 +249,11 @@ impl redb::StorageBackend for MemBackend {
         g.syncs += 1;
         if g.recording {
             g.log.push(Op::Sync);
+        }
+        let delay = g.sync_delay_us;
+        drop(g);
+        if delay > 0 {
+            std::thread::sleep(std::time::Duration::from_micros(delay));
         }
         Ok(())
     }
